@@ -700,6 +700,8 @@ _transitions = {
     # > STREAM_CLOSED.
     (StreamState.CLOSED, StreamInputs.RECV_HEADERS):
         (H2StreamStateMachine.recv_on_closed_stream, StreamState.CLOSED),
+    (StreamState.CLOSED, StreamInputs.RECV_INFORMATIONAL_HEADERS):
+        (H2StreamStateMachine.recv_on_closed_stream, StreamState.CLOSED),
     (StreamState.CLOSED, StreamInputs.RECV_DATA):
         (H2StreamStateMachine.recv_on_closed_stream, StreamState.CLOSED),
 
